@@ -160,6 +160,11 @@ def do_replay(prop: str, path: str) -> int:
                 print("   model:", model[i + 1][0])
         print("final state (impl):", impl[-1]["state"])
         return 0
+    if "byte_history" in case:
+        from .props import bytepipe
+        print("outcome recorded:", case.get("outcome"), "at step", case.get("step"))
+        bytepipe.replay(case)
+        return 0
     print(json.dumps(case, indent=1, default=str)[:4000])
     print("(this engine's cases are replayed by re-running the check: the corpus and the seed reproduce them)")
     return 0
